@@ -168,6 +168,19 @@ def gamma_fit(ctx):
                not (missing or extra or wrongE or bad), 'missing %s; extra %s; wrong energy at %s; %s' % (missing[:4], extra[:4], wrongE[:4], bad[:2]), node=fn, key=tag + ' nodes')
         nn = {(sp.nsimplify(r[0]), sp.nsimplify(r[1])): e for r, e in zip(np.asarray(ne[0][1], dtype=object), np.ravel(ne[0][2]))}
         ctx.ob('GAMMA-FIT', loc, '%s: the nearest-neighbour interpolant gets the same nodes and energies' % tag, nn == nodes, node=fn, key=tag + ' nearest')
+        if nint == 2:
+            dn, dbad = {}, []
+            for a, b, e in zip(np.ravel(rb[1][1]), np.ravel(rb[1][2]), np.ravel(rb[1][3])):
+                key = (sp.nsimplify(a), sp.nsimplify(b))
+                if key in dn:
+                    dbad.append('node %s given twice' % (key,))
+                dn[key] = e
+            wantd = {k: sp.Symbol(str(v).replace('E_', 'D_')) for k, v in want.items()}
+            wrong = [k for k in wantd if dn.get(k) != wantd[k]]
+            ctx.ob('GAMMA-FIT', loc, '%s: the plane-separation interpolant has the same nodes, each carrying the separation tabulated for that shift (periodic images the same value)' % tag,
+                   set(dn) == set(wantd) and not wrong and not dbad, 'wrong separation at %s; %s' % (wrong[:4], dbad[:2]), node=fn, key=tag + ' delta nodes')
+            nd = {(sp.nsimplify(r[0]), sp.nsimplify(r[1])): e for r, e in zip(np.asarray(ne[1][1], dtype=object), np.ravel(ne[1][2]))}
+            ctx.ob('GAMMA-FIT', loc, '%s: the nearest-neighbour plane-separation interpolant gets the same nodes and values' % tag, nd == dn, node=fn, key=tag + ' delta nearest')
 
 
 def gamma_egsf(ctx):
@@ -373,6 +386,23 @@ def pn_terms(ctx):
             ctx.ob('PN-TERMS', loc + 'stress_energy', '%s: the short expression differs from the full one only through the two end disregistries (same force on the interior points)' % tag,
                    all(is_zero(sp.diff(diff, v)) for v in interior), 'difference depends on %s' % [str(v) for v in interior if not is_zero(sp.diff(diff, v))][:4], node=ctx.fn(PN, 'SDVPN.stress_energy'), key='stress alt ' + tag)
         ctx.ob('PN-TERMS', loc + 'stress_energy', '%s: the stress term uses the profile passed in' % tag, not dep_old(sp.sympify(e_alt)) and not dep_old(sp.sympify(e_full)), node=ctx.fn(PN, 'SDVPN.stress_energy'), key='stress arg ' + tag)
+    # no term depends on what the object was evaluated with before (same number of points, another spacing and profile)
+    h2 = sp.Symbol('h2', positive=True)
+    x2 = arr([x0 + i * h2 for i in range(n)])
+    d2 = symarray('e', (n, 3), real=True)
+    for name in ('surface_energy', 'elastic_energy', 'stress_energy', 'nonlocal_energy', 'misfit_energy', 'total_energy'):
+        for cd in (False, True):
+            try:
+                fresh = run(name, obj(cd), x2, d2)
+                o = obj(cd)
+                run(name, o, x, d)
+                second = run(name, o, x2, d2)
+                third = run(name, o, x2, d2)
+            except WouldRaise as ex:
+                continue       # reported by the per-term obligations
+            same = is_zero(sp.expand(sp.expand_log(sp.sympify(second) - sp.sympify(fresh), force=True))) and is_zero(sp.expand(sp.expand_log(sp.sympify(third) - sp.sympify(fresh), force=True)))
+            ctx.ob('PN-TERMS', loc + name, '%s differences: the value for a grid and profile does not depend on the grid the same object was evaluated on before' % ('central' if cd else 'forward'), bool(same),
+                   node=ctx.fn(PN, 'SDVPN.' + name), key='history %s %s' % (name, cd))
     # nonlocal
     e = run('nonlocal_energy', obj(False), x, d)
     want = sum(alpha[mm - 1] * sum(sum(d[i, l] * (d[i, l] - (d[i + mm, l] + d[i - mm, l]) / 2) for l in range(3)) * h for i in range(mm, n - mm)) for mm in (1, 2))
